@@ -870,6 +870,29 @@ pub fn pk_teddy<P: PackedCase, const LEN: usize, const OFF: usize, const W: usiz
     cover!(got.is_none() || got.unwrap().start() < OFF, "no match inside the window");
 }
 
+/// C10: Teddy on a span that ends inside the haystack. The haystack has LEN
+/// bytes, the span is 0..END (END >= the searcher's minimum length, so the
+/// vector code runs), and the symbolic window may straddle END: an occurrence
+/// that crosses or lies beyond END must not be reported (seeded change C10c).
+#[cfg(kani)]
+pub fn pk_teddy_end<P: PackedCase, const LEN: usize, const END: usize, const OFF: usize, const W: usize, const PAD: u8>() {
+    let mut hay = [PAD; LEN];
+    let w: [u8; W] = any();
+    let mut i = 0;
+    while i < W {
+        hay[OFF + i] = w[i];
+        i += 1;
+    }
+    let got = P::find_in(&hay[..], Span { start: 0, end: END });
+    let want = oracle::leftmost(P::pats(), &hay[..], 0, END, P::KIND, false, false);
+    assert!(same(got, want), "Teddy search on a span ending inside the haystack differs from the leftmost definition");
+    if let Some(m) = got {
+        assert!(wellformed(&m, END, P::NPATS), "malformed match or match beyond the span end");
+    }
+    cover!(got.is_some(), "a match inside the span");
+    cover!(got.is_none() && w[W - 1] == P::pats()[0][P::pats()[0].len() - 1], "no match although the window ends with a pattern's last byte");
+}
+
 /// C06/C15: the candidate-verification primitives of every packed variant
 /// (`is_prefix` for Rabin-Karp, `Pattern::is_prefix_raw` for Teddy; both end in
 /// the hand-written `is_equal_raw`), on an exactly sized haystack object of HN
